@@ -381,6 +381,13 @@ func existsPathAvoiding(fn *ssa.Function, target ssa.Instruction, gen func(ssa.I
 // once `from` was executed), while the assumptions about repeatedly tested values are collected
 // from the function entry on.
 func existsPathFromAvoiding(fn *ssa.Function, from, target ssa.Instruction, gen func(ssa.Instruction) bool, edgeGen func(b *ssa.BasicBlock, i int) bool) (bool, []string) {
+	return existsPathAssuming(fn, from, target, gen, edgeGen, nil)
+}
+
+// existsPathAssuming is existsPathFromAvoiding for paths on which, in addition, every value in
+// assumeNil is nil / false / zero wherever it is tested (used to ask "can this return be reached
+// without passing X when the error it returns is nil?").
+func existsPathAssuming(fn *ssa.Function, from, target ssa.Instruction, gen func(ssa.Instruction) bool, edgeGen func(b *ssa.BasicBlock, i int) bool, assumeNil []ssa.Value) (bool, []string) {
 	if len(fn.Blocks) == 0 {
 		return false, nil
 	}
@@ -500,7 +507,15 @@ func existsPathFromAvoiding(fn *ssa.Function, from, target ssa.Instruction, gen 
 		}
 		return false
 	}
-	found := dfs(fn.Blocks[0], map[ssa.Value]bool{}, from == nil)
+	initial := map[ssa.Value]bool{}
+	for _, v := range assumeNil {
+		for _, ck := range []string{"nil", "bool", "0"} {
+			rv := canon(v, ck)
+			initial[rv] = true
+			count[rv] += 2
+		}
+	}
+	found := dfs(fn.Blocks[0], initial, from == nil)
 	// reverse path
 	for i, j := 0, len(path)-1; i < j; i, j = i+1, j-1 {
 		path[i], path[j] = path[j], path[i]
